@@ -76,7 +76,7 @@ PROPS = {
             "returned move is legal. The inputs (prior, q, lambda) the implementation hands to the solver at every call are compared "
             "with the model's inside Coq; 'to the accuracy the solver guarantees' rests on C10, whose float behaviour is not proved.",
             "Coq theorem over the tree invariant + correspondence of every solver call's inputs in Coq + rational oracle of the returned distribution",
-            "Solver output accuracy is C10's; lambda compared through its square (no sqrt in Q).", "6/C09"),
+            "Solver output accuracy is C10's; the multiplier is compared BIT FOR BIT with a binary64 SpecFloat mirror (model/LambdaF64.v) of c*sqrt(N)/(N+K) and of its float32 cast; policy queries repeated after the search with other C and after continuing a subtree.", "6/C09"),
     "C10": (True, "Partial. The bisection is written once, generic in the arithmetic; proved in exact rationals (no Reals axioms): f "
             "strictly decreasing above max q, the initial bracket contains the root, bisection keeps it bracketed with width "
             "lambda/2^k, the Python exit rule returns within 32 iterations (the AssertionError is unreachable), the output is "
@@ -85,7 +85,7 @@ PROPS = {
             "overflow, cancellation) is decided by a bit-exact SpecFloat binary32 mirror of tak.cpp compared bit for bit with the "
             "native solver, and by a rational oracle sweep over the property's regime - not by a theorem.",
             "Coq theorem in exact rational arithmetic + bit-exact SpecFloat mirror compared with the native solver inside Coq + source-shape tie + oracle sweep",
-            "g++ build of the real tak.cpp; torch float32 elementwise ops mirrored by SpecFloat (24,128); source fragments scraped by regex (a renamed variable breaks the tie).", "6/C10"),
+            "g++ build of the real tak.cpp; torch float32 elementwise ops mirrored by SpecFloat (24,128); source fragments scraped by regex (a renamed variable breaks the tie). Float-level theorems about the binary32 mirror (proofs/SolverFloat.v, over Flocq BinarySingleNaN): alpha never drops below max q, weights are never negative/NaN, the isfinite fallback returns finite weights, and WHENEVER the native loop returns all weights are finite and non-negative (defect F3 cannot recur); termination within 32 iterations at float level and the value of the sum are not proved. Those four theorems use the stdlib Reals axioms sig_forall_dec, sig_not_dec, functional_extensionality_dep and Classical_Prop.classic (through Flocq's B2R); the exact-arithmetic theorems stay closed.", "6/C10"),
     "C11": (True, "Full. play_one_game modelled over a stream of engine answers (candidates, probabilities, value, v_zero, sampled "
             "index) with the code's precedence (ply-limit test, then rules, then analysis, recording, resignation): the four lists are "
             "aligned and are the engine's answers; the first position is the initial one and each next position = move (previous) "
@@ -94,13 +94,13 @@ PROPS = {
             "the limit; labels +1/-1 by side to move relative to the winner, 0 throughout when None. Candidate legality and "
             "probabilities being a distribution are hypotheses here (C08/C09 supply them for the real engine).",
             "Coq theorem (loop = relational run, induction over the answer stream) + differential correspondence in Coq with scripted engines forcing every ending class",
-            "Scripted engine objects and recorded torch.multinomial in the harness; float values dyadic.", "6/C11"),
+            "Scripted engine objects and recorded torch.multinomial in the harness; float values dyadic. play_one_game, Transcript.results and Transcript.logits are additionally REGENERATED from the source (gen/SelfPlayGen.v, py2coq against PySem.v, the engine as an oracle stream) and proved equal to the model (C11_source_*); for the real engine the hypotheses are discharged from C08/C09 (C11_real_engine_*).", "6/C11"),
     "C12": (True, "Full. encode_games (rows in game then ply order with padded tokens, mask, dense policy row with each candidate's "
             "probability at its move id and 0 elsewhere, value, label) and dedup_batch (keys = masked token strings, first-occurrence "
             "order, fieldwise arithmetic means over occurrences, tokens and mask of the first occurrence, identity on duplicate-free "
             "batches) modelled on lists over Q with the per-position token encoding as a Section variable (C06 is the theorem about "
             "it).", "Coq theorem (list induction; first-occurrence order and means over Q) + differential correspondence in Coq with dyadic targets",
-            "dedup_batch / encode_games run from the real source; targets dyadic so float32 sums are exact, means compared within 1 ulp32.", "6/C12"),
+            "dedup_batch / encode_games run from the real source; targets dyadic so float32 sums are exact, means compared within 1 ulp32. Both functions are additionally REGENERATED from the source (gen/BatchGen.v, torch2coq against TorchLite.v, validated against torch on every run) and proved equal to the model on rectangular batches (C12_source_*); with the real encoding the keys are (board, side, reserves) (C12_dedup_distinct_positions).", "6/C12"),
     "C13": (True, "Full. format/parse modelled statement by statement over code points (str.split/join proved characterised): "
             "parse(format p) = p for every well-formed position with standard reserves; format(parse s) = s for canonical text; the "
             "accepted text means what the TPS standard says pointwise (square (x,y) = the x-th expanded cell of rank size-1-y read "
@@ -114,7 +114,7 @@ PROPS = {
             "numbers, annotations, result markers and arbitrary white space parse_game returns the tags and exactly the moves in "
             "order. Regexes and glyph maps are regenerated constants.",
             "Coq theorem (recursive-descent matcher = grammar relation; renderer/parse_game round trip) + regenerated regexes + differential correspondence in Coq (exhaustive over moves and short strings)",
-            "Python re semantics of the six regexes modelled by hand (\\s,\\d exact tables checked against re on every run; \\w on ASCII only).", "6/C14"),
+            "A standard declarative regex semantics (spec/RegexSpec.v) ties the REGENERATED regex texts to the hand matchers: the printed ASTs equal the strings scraped from ptn.py and the move matcher, the token filters and the comment substitution are proved equal to that semantics (the greedy \\s+ split and the tag findall scan only per match: _partial); \\s,\\d exact tables checked against re on every run, \\w on ASCII only. format_move is REGENERATED from the source (gen/PtnGen.v, py2coq) and proved equal to the model (C14_source_*).", "6/C14"),
     "C15": (True, "Full. The eight regenerated matrices are the dihedral group of the square (distinct maps, closed under composition and "
             "inverse, signed permutation linear parts, bijections of the board preserving adjacency, for every size); for every "
             "symmetry, every position with size^2 squares and EVERY move (legal, illegal, off-board, malformed): transform then move "
@@ -122,7 +122,7 @@ PROPS = {
             "side to move and reserves are invariant; symmetries(p) starts with (id, p), has pairwise distinct positions and is "
             "exactly the orbit.",
             "Coq theorem (slide loop invariant under a board permutation; road paths mapped through the symmetry) + regenerated matrices + differential correspondence in Coq",
-            "numpy integer matmul/astype as used by symmetry.py (validated by the correspondence); identity must stay first in SYMMETRIES.", "6/C15"),
+            "identity must stay first in SYMMETRIES. SYMMETRIES, transform_position, transform_move and symmetries are REGENERATED from the source (gen/SymmetryGen.v, sym2coq against NumpyLite.v + PySem.v, both validated against numpy/CPython on every run) and proved equal to the model, never crashing on boards of size^2 >= 1 squares (C15_source_*).", "6/C15"),
     "C16": (True, "Partial. The dataflow IR of the forward/__init__ methods (Resblock, Torso, embeddings, Transformer, both heads), "
             "of encoding._encode_batch and of every mask producer and model call site (batch classes, ReplayBufferBatch, "
             "Server.run_model, ModelWrapper.evaluate) is REGENERATED from the source on every run by a fail-closed ast translator "
@@ -143,7 +143,7 @@ PROPS = {
             "answered within k+1 (tight: 2 + k/capacity) model completions; the float32 byte codec round-trips. What the model cannot "
             "exhibit: real thread scheduling, the gRPC transport, cancellation races, equal timer deadlines.",
             "Coq theorem (invariant over all event sequences of a state machine) + schedule-level differential correspondence on a virtual-time asyncio loop",
-            "Virtual-time event loop and inline executor of the harness; shims for grpc/protobuf; gather timeout 1 ms is a literal in the model (tie behavioural only).", "6/C17"),
+            "Virtual-time event loop and inline executor of the harness; shims for grpc/protobuf. Queue capacity, batch threshold, gather timeout and the result-to-request pairing are READ from a protocol IR regenerated from worker_loop/run_model/Evaluate/GRPCNetwork.evaluate on every run (gen/ServerIR.v, harness/server_ir.py; the denotation recognises exactly the loop shape the model interprets).", "6/C17"),
     "C18": (True, "Partial. A protocol model (parent, bounded cmd/games queues, workers Starting/Idle/Reading/Playing/Done/Exited, "
             "fault events Raise/Kill, torn queue messages, stop with join timeout) over ALL event sequences: count invariant, a normal "
             "return has exactly N distinct transcripts of this request's ids, queues empty and no worker holding an id between "
@@ -152,7 +152,7 @@ PROPS = {
             "statement is refuted - the known finding torn-put-hang), stop terminates all workers. OS process and pipe behaviour is "
             "runtime; real spawn processes with fault injection are compared with the model's prediction.",
             "Coq theorem (invariants and bounded progress over all event sequences of a protocol model) + fault-injection correspondence with real processes",
-            "multiprocessing.Queue is FIFO and get(timeout) returns unless a message is torn; scenario harness with a watchdog (hang = observed outcome).", "6/C18"),
+            "multiprocessing.Queue is FIFO and get(timeout) returns unless a message is torn; scenario harness with a watchdog (hang = observed outcome, parent CPU time never counts as progress). A protocol IR of run_job/entrypoint/play_many/stop/play_many_games is regenerated from the source on every run (gen/WorkersIR.v, harness/workers_ir.py) and its step function is proved to coincide with the hand model's (one named tie lemma per guard).", "6/C18"),
     "C19": (True, "Partial. The file-system operation sequence of SavingHook.save_snapshot and the read set of load_state / "
             "load_or_init_model are REGENERATED from the source on every run (fail-closed ast translator) and tied to the model; "
             "over a file-system model with writes split into truncate+complete: for EVERY history of saves (periodic, on request, "
@@ -170,7 +170,7 @@ PROPS = {
             "a pickled and restored dataset restarts the stream. That torch.randperm permutes and is a function of the generator "
             "state is assumed and checked on every observed call.",
             "Coq theorem (Permutation / chunking lemmas, induction on epochs) + differential correspondence in Coq with the observed permutations as the oracle",
-            "torch.randperm / torch.Generator behaviour (observed, validated per call); torch indexing as list indexing.", "6/C20"),
+            "torch.randperm / torch.Generator behaviour (observed, validated per call). The Dataset and ReplayBufferDataset methods are REGENERATED from the source (gen/DatasetGen.v, data2coq against TorchData.v, validated against torch on every run) and proved equal to the model on the stated domain, without Crash (C20_source_*).", "6/C20"),
     "C07": (True, "Full. Theorems for every size n: the id table lists exactly the well-formed moves (table_spec), without "
             "repetition, encode/decode are mutual inverses between [0,|table n|) and the move universe; width bound proved for "
             "sizes 3-6 by computation. Tie is exhaustive: every id and move of sizes 0-6 compared with the model inside Coq.",
